@@ -37,6 +37,7 @@ Definition check (c : case) : N :=
     bit (list_eqb packet_eqb ms served && (pend_class e =? ending)) 1
     (* oracle: the loop ends (the watchdog is the harness itself); allocation stays in proportion:
        every served packet was filled from the input, the last one may have reserved up to max *)
+    |+| bit (ending <? 4) 2          (* 4 = still running after 3 s *)
     |+| bit (alloc <=? 64 * len s + 2 * max + 1048576) 4
   | CLast limit class cap =>
     bit ((class =? 0) && (cap =? lookup_prealloc limit)%Z) 1
